@@ -15,7 +15,7 @@ Q = lambda *a: list(a)
 
 # thorough-only harness variants (deeper bounds); left out of every quick run
 DEEP = ["vpH_C02_T_churn2", "vpH_C03_T_unreachable_fast", "vpH_C04_T_validate_racing", "vpH_C07_T_leftover_symrand",
-        "vpH_C08_T_causes_symrand", "vpH_C09_T_stop_leader_slow", "vpH_C11_T_grace5", "vpH_C12_T_health7",
+        "vpH_C08_T_causes_symrand", "vpH_C09_T_stop_leader_slow", "vpH_C11_T_grace5", "vpH_C11_T_late_notify_deep", "vpH_C12_T_health7",
         "vpH_C13_T_follower_arb", "vpH_C15_wrapped2", "vpH_C14_T_watch7", "vpH_C17_T_breaker_seq5", "vpH_C10_T_safety2"]
 
 PROPS = {
@@ -167,7 +167,7 @@ PROPS["C06"] = {
 PROPS["C11"] = {
     "groups": [{"run": "^vpH_C11_T_", "args": ["-timeout-ms", "30000"]}],
     "bounds": {"quick": "a leader built with a provider exposing an (unconnected) *nats.Conn: the real natsConnectionMonitor and disconnectHandler are wired and notifications are injected through the handlers the monitor registered on the Conn, one at a time; 1-3 notifications (disconnect first, then disconnect/reconnect: flapping) at symbolic gaps in [0,3s]; grace period default (max(3H,5s)) or symbolic in [2H,4H], H=10s; store healthy. Reconnect verification: record untouched / another owner / later incarnation with the same id / arbitrary bytes during an outage of symbolic length below one heartbeat. Stop/StopWithContext placed at every point of a disconnect -> grace-expiry sequence, including inside the expiry handler (the Logger passed in the configuration is a scheduling point for two log lines)"},
-    "outside": "more than three notifications; Closed notifications; store partitions during the outage (then the heartbeat path demotes first: C03); concurrent dispatch of notifications (nats.go dispatches connection callbacks from one goroutine: assumption)",
+    "outside": "more than three notifications (five in the thorough tier); Closed notifications other than during the grace period and after a completed stop; store partitions during the outage (then the heartbeat path demotes first: C03); concurrent dispatch of notifications (nats.go dispatches connection callbacks from one goroutine: assumption)",
     "assumptions": ["connection callbacks are dispatched one at a time", "the three nats.Conn.Set*Handler methods are interpreted from their own SSA on a zero nats.Conn"],
     "level_text": "The real monitor, disconnect handler, reconnect verification and stop code run symbolically with notification instants and the grace period as solver variables: 'never demoted by the grace mechanism before lastDisconnect+G' and 'demoted exactly then' are linear-arithmetic obligations checked at the flag change itself; deadlocks (self-lock, lock-order cycles that the explored schedules hit) and crashes are executor events.",
     "level_note": "Bounded notification sequences; reductions R1/R2 with the Logger as an additional switch point inside the handlers' critical sections.",
@@ -236,6 +236,7 @@ for _k, _v in _ADD.items():
         PROPS[_k]["bounds"]["quick"] += _v + _ADD2.get(_k, "")
 
 _ADD_THOROUGH = {
+    "C11": "as quick plus: up to five notifications in the grace scenario; late notifications after all four stop variants (DeleteKey, WaitForDemote), up to three of them at symbolic gaps in [0,3s]",
     "C10": "as quick plus: the third party writes twice (two symbolic priorities), each write at any store-operation leg of the candidate",
     "C14": "as quick plus: emitted sequences of up to 7 entries / markers",
     "C17": "as quick plus: circuit-breaker call sequences for thresholds up to 5 (up to 12 calls with symbolic gaps)",
